@@ -20,7 +20,6 @@ import (
 	"os"
 	"os/exec"
 	"path/filepath"
-	"sort"
 	"strings"
 	"sync"
 	"sync/atomic"
@@ -543,5 +542,4 @@ func runC17(o Opts) {
 		rec.SelfTest, rec.SelfOf, rec.Obs = true, rec.ID, nil
 		out.Emit(rec)
 	}
-	_ = sort.Strings
 }
